@@ -597,3 +597,25 @@ wait_for_process = Contract(
 # the loop specification of SyncGroupBase.run is looked up through the registry
 # also when run() is inlined into FastSyncGroup.run
 BASE_RUN = run_contract(SyncGroup, 0)
+
+
+# ---- the Python side of a fast group's cycle (stood for by the stub
+# UpdateDevices above): which frame becomes the group's current data and what
+# goes back onto the bus.  Index byte: EtherXDP.INDEX0 - ethernet header = 3.
+def fast_update_devices():
+    def setup(ex, inputs):
+        inputs.vars["self"].fields["devices"] = PList([])
+    return Contract(
+        FastSyncGroup.update_devices,
+        name="FastSyncGroup.update_devices<no devices>",
+        params=dict(self=T.Obj(FastSyncGroup, current_data=T.Opt(T.Bytes), asm_packet=T.Bytes), data=T.Bytes),
+        setup=setup,
+        requires={"a_frame_with_its_identification_datagram": "len(data) > 3"},
+        ensures={
+            "the_assembled_frame_goes_back_onto_the_bus": "result is self.asm_packet",
+            "a_processed_frame_becomes_the_current_data":
+                "(self.current_data is data) if data[3] % 2 == 1 else (self.current_data is old.self.current_data)",
+        },
+        raises=[],
+        modifies=["self.current_data"],
+        canaries={"every_frame_becomes_current": "self.current_data is data"})
